@@ -262,7 +262,12 @@ def build(spec):
                 ns['_yatiml_' + hk] = _mk_hook(hk, [T(o) for o in hooks[hk]], name, b)
                 ns['_ops_' + hk] = [T(o) for o in hooks[hk]]
         if kind == 'enum':
-            cls = enum.Enum(name, {m: i + 1 for i, m in enumerate(c['members'])})
+            if c.get('mixin') == 'str':        # class Name(str, enum.Enum): members carry string values
+                cls = enum.Enum(name, {m: 'v' + m for m in c['members']}, type=str)
+            elif c.get('mixin') == 'int':
+                cls = enum.IntEnum(name, {m: i + 1 for i, m in enumerate(c['members'])})
+            else:
+                cls = enum.Enum(name, {m: i + 1 for i, m in enumerate(c['members'])})
             for k, v in ns.items():
                 setattr(cls, k, v)
         elif kind == 'userstring':
@@ -302,7 +307,13 @@ def build(spec):
             if c.get('extra'):
                 g['OrderedDict'] = collections.OrderedDict
                 anydef = any(len(p) > 2 for p in params)
-                sig.append('_yatiml_extra: OrderedDict' + (' = None' if (c.get('extra') == 'opt' or anydef) else ''))
+                if c.get('extra_pos') is not None:
+                    # _yatiml_extra declared among the other parameters (before the defaulted ones)
+                    pos = 1 + c['extra_pos']
+                    before_def = not any(len(p) > 2 for p in params[:c['extra_pos']])
+                    sig.insert(pos, '_yatiml_extra: OrderedDict' + ('' if before_def else ' = None'))
+                else:
+                    sig.append('_yatiml_extra: OrderedDict' + (' = None' if (c.get('extra') == 'opt' or anydef) else ''))
                 body.append("    kw['_yatiml_extra'] = _yatiml_extra; self._yatiml_extra = "
                             "_yatiml_extra if _yatiml_extra is not None else OrderedDict()")
             body.append("    self._kw = kw; LOG.append(('init', type(self).__name__, dict(kw)))")
